@@ -12,6 +12,7 @@ import (
 	"os"
 	"os/exec"
 	"path/filepath"
+	"regexp"
 	"sort"
 	"strings"
 	"time"
@@ -152,4 +153,31 @@ func errClass(r RunResult) string {
 		return "outfile-exists"
 	}
 	return fmt.Sprintf("exit-%d", r.Exit)
+}
+
+// runGo runs the go tool inside a scratch module (offline).
+func runGo(dir string, args ...string) (string, error) {
+	r := runBin("go", dir, args, nil, 180*time.Second)
+	out := r.Stdout + r.Stderr
+	if r.Exit != 0 {
+		return out, fmt.Errorf("go %v: exit %d", args, r.Exit)
+	}
+	return out, nil
+}
+
+var reFormatErr = regexp.MustCompile(`go/format: (\d+):(\d+): ([^"\\]*)`)
+
+// formatErrLine: when formatting the rendered file fails, mockery prints the numbered source
+// to stdout; return the offending line with the diagnostic.
+func formatErrLine(r RunResult) string {
+	m := reFormatErr.FindStringSubmatch(r.Stderr)
+	if m == nil {
+		return ""
+	}
+	for _, l := range strings.Split(r.Stdout, "\n") {
+		if strings.HasPrefix(l, m[1]+":\t") {
+			return fmt.Sprintf("%s at %s:%s: %s", strings.TrimSpace(m[3]), m[1], m[2], strings.TrimPrefix(l, m[1]+":\t"))
+		}
+	}
+	return m[0]
 }
